@@ -62,6 +62,13 @@ func sortedCanon(x interface{}) string {
 
 // loadArrangement loads the documents one after the other into a fresh root.
 func loadArrangement(texts []string) (root *ggql.Root, failedAt int, err error, pan interface{}) {
+	return loadArrangementPeek(texts, false)
+}
+
+// loadArrangementPeek: with peek the schema is looked at (all the requests of the check) after every
+// load but the last - an application that serves requests while its schema is still being put
+// together. What those answers are is not compared; the final schema must not depend on them.
+func loadArrangementPeek(texts []string, peek bool) (root *ggql.Root, failedAt int, err error, pan interface{}) {
 	ggql.Sort = true
 	ggql.Relaxed = false
 	root = ggql.NewRoot(newRootObj())
@@ -76,6 +83,9 @@ func loadArrangement(texts []string) (root *ggql.Root, failedAt int, err error, 
 		}()
 		if pan != nil || err != nil {
 			return root, i, err, pan
+		}
+		if peek && i < len(texts)-1 {
+			_, _, _ = observe(root)
 		}
 	}
 	return root, -1, nil, nil
@@ -102,6 +112,7 @@ func observe(root *ggql.Root) (desc string, answers []string, pan interface{}) {
 type c16Case struct {
 	Arrangements []*Arrangement `json:"arrangements"`
 	IllFormed    string         `json:"ill_formed,omitempty"`
+	Peek         bool           `json:"peek,omitempty"` // requests are served between the loads
 }
 
 func checkC16(c *c16Case) (ds []hx.Discrepancy, info map[string]bool) {
@@ -120,7 +131,10 @@ func checkC16(c *c16Case) (ds []hx.Discrepancy, info map[string]bool) {
 		return strings.Join(a.Texts(), "\n-------- next load --------\n")
 	}
 	for i, a := range c.Arrangements {
-		root, at, err, pan := loadArrangement(a.Texts())
+		root, at, err, pan := loadArrangementPeek(a.Texts(), c.Peek && i > 0)
+		if c.Peek && i > 0 && len(a.Docs) > 1 {
+			info["requests-served-between-loads"] = true
+		}
 		if pan != nil {
 			add("panic", "", "loading arrangement %d panicked: %v\n%s", i, pan, show(a))
 			return
@@ -200,6 +214,9 @@ func TestC16(t *testing.T) {
 				cl = append(cl, "ill-formed-member-extended-in-last-load")
 			}
 		}
+		if info["requests-served-between-loads"] {
+			cl = append(cl, "requests-served-between-loads")
+		}
 		if c.IllFormed != "" {
 			cl = append(cl, "ill-formed-set", "ill-formed="+c.IllFormed)
 			if info["all-rejected"] {
@@ -242,7 +259,7 @@ func TestC16(t *testing.T) {
 	rapid.Check(t, func(rt *rapid.T) {
 		s := GenFull(rt, Opts{Descs: true, Directives: true, Deprecated: true})
 		o := hx.SDLOpts{Commas: rapid.Bool().Draw(rt, "commas")}
-		c := &c16Case{}
+		c := &c16Case{Peek: rapid.IntRange(0, 2).Draw(rt, "peek") == 0}
 		var mut *Mutation
 		if rapid.IntRange(0, 4).Draw(rt, "illFormed") == 0 {
 			kinds := []string{"ref-field-type", "ref-arg-type", "ref-union-member", "ref-interface", "dup-type", "dup-field", "reserved-field", "field-returns-input",
